@@ -845,7 +845,8 @@ func streamTrie(o opts) {
 func streamIndex(o opts) {
 	r := newRand(o.seed, "index")
 	m := newMeta("index", o.seed)
-	m.Rule = "deterministic interleavings of store (index step, cache step), Invalidate, InvalidateByFunc, Clear, direct removals and notification delivery on the real middleware (distinct keys concurrently; same-key overlap only in the known-finding probe), plus a late-notification probe through a blocking PathExtractor and free-running requests with evictions; at every quiescent point the keys reachable through the index must equal the cached keys that have a path; non-trivial = round with a removal whose notification is delivered after the key was re-cached; distinct by scenario parameters"
+	m.Rule = "T-trace against IndexLts (rounds with a cache large enough never to displace: every split-store step, Delete, Invalidate, Clear and flush is replayed by the extracted model and the index / cache key sets are compared at every flush) and monitors on all rounds: deterministic interleavings of store (index step, cache step), Invalidate, InvalidateByFunc, Clear, direct removals and notification delivery on the real middleware (distinct keys concurrently; same-key overlap only in the known-finding probe), plus a late-notification probe through a blocking PathExtractor and free-running requests with evictions; at every quiescent point the keys reachable through the index must equal the cached keys that have a path; non-trivial = round with a removal whose notification is delivered after the key was re-cached; distinct by scenario parameters"
+	w := newTraceWriter(o.out, "index")
 	newMW := func(maxSize int64, extractor func(string) string) *httpcache.Middleware {
 		cfg := httpcache.Config{MaxSize: maxSize, ShardCount: 1, EvictionPolicy: kioshun.LRU, DefaultTTL: time.Hour, DisableCleanup: true, PathExtractor: extractor}
 		mw, err := httpcache.New(cfg)
@@ -883,9 +884,46 @@ func streamIndex(o opts) {
 	}
 	for round := 0; round < o.n; round++ {
 		// (a) sequential + interleaved stores on distinct keys, removals, invalidations
-		mw := newMW(pick(r, []int64{3, 8, 1000}), httpcache.PathExtractorFromKey)
+		size := pick(r, []int64{3, 8, 1000, 1000})
+		mw := newMW(size, httpcache.PathExtractorFromKey)
 		ctx := fmt.Sprintf("index round %d", round)
 		paths := []string{"/a", "/a/b", "/a/b/c", "/x", "/x/y", "/", "/a///b", "//a", "/a/b//", "/x////y", "/a/b///c/"}
+		// T-trace against IndexLts (sid 151) when the cache is large enough never to displace anything
+		traced := size == 1000
+		keyNum := map[string]int64{}
+		for i, p := range paths {
+			keyNum["GET:"+p] = int64(i + 1)
+		}
+		normOf := func(p string) string {
+			return "/" + strings.Join(strings.FieldsFunc(p, func(c rune) bool { return c == '/' }), "/")
+		}
+		emit := func(op *toks, res *toks) {
+			if traced {
+				w.O(op, res)
+			}
+		}
+		observe := func() {
+			if !traced {
+				return
+			}
+			mw.VerifFlushRemovals()
+			emit(ints(3), &toks{})
+			var ik, ck []int64
+			for _, k := range mw.VerifIndexKeys() {
+				ik = append(ik, keyNum[k])
+			}
+			for _, k := range mw.VerifCachedKeys() {
+				ck = append(ck, keyNum[k])
+			}
+			sort.Slice(ik, func(a, b int) bool { return ik[a] < ik[b] })
+			sort.Slice(ck, func(a, b int) bool { return ck[a] < ck[b] })
+			res := &toks{}
+			res.I(ik...).I(-1).I(ck...)
+			emit(ints(7), res)
+		}
+		if traced {
+			w.T(151, &toks{})
+		}
 		pending := map[string]*httpcache.Response{}
 		for i := 0; i < 60; i++ {
 			key := "GET:" + pick(r, paths)
@@ -895,15 +933,18 @@ func streamIndex(o opts) {
 					resp := &httpcache.Response{StatusCode: 200 + i}
 					mw.VerifStoreIndex(key, resp)
 					pending[key] = resp
+					emit(ints(1, keyNum[key], int64(200+i)), &toks{})
 				}
 			case 2, 3:
 				if resp, busy := pending[key]; busy {
 					mw.VerifStoreSet(key, resp, time.Hour)
 					delete(pending, key)
+					emit(ints(2, keyNum[key], int64(resp.StatusCode)), &toks{})
 				}
 			case 4:
 				if _, busy := pending[key]; !busy {
-					mw.VerifDeleteKey(key)
+					ok := mw.VerifDeleteKey(key)
+					emit(ints(4, keyNum[key]), (&toks{}).B(ok))
 				}
 			case 5:
 				pat := pick(r, []string{"/a", "/a/*", "/x/*", "/*", "/a/b/", "//a//b", "/a///b", "/x///*", "/a/b////c"})
@@ -914,7 +955,22 @@ func streamIndex(o opts) {
 				}
 				if !busy {
 					n := mw.Invalidate(pat)
-					_ = n
+					if traced {
+						// the universe keys whose normalized path matches the pattern (independent of the index)
+						op := ints(5)
+						base := normOf(strings.TrimSuffix(pat, "*"))
+						for _, p := range paths {
+							np := normOf(p)
+							hit := np == base
+							if strings.HasSuffix(pat, "*") {
+								hit = np == base || base == "/" || strings.HasPrefix(np, base+"/")
+							}
+							if hit {
+								op.I(keyNum["GET:"+p])
+							}
+						}
+						emit(op, ints(int64(n)))
+					}
 					mw.VerifFlushRemovals()
 					for _, k := range mw.VerifCachedKeys() {
 						p := httpcache.PathExtractorFromKey(k)
@@ -932,15 +988,19 @@ func streamIndex(o opts) {
 				}
 			case 6:
 				mw.VerifFlushRemovals()
+				observe()
 			case 7:
 				if len(pending) == 0 && r.Intn(4) == 0 {
 					mw.Clear()
+					emit(ints(6), &toks{})
 				}
 			}
 		}
 		for key, resp := range pending {
 			mw.VerifStoreSet(key, resp, time.Hour)
+			emit(ints(2, keyNum[key], int64(resp.StatusCode)), &toks{})
 		}
+		observe()
 		quiescentCheck(mw, ctx)
 		mw.Close()
 		m.count("interleaving_rounds")
@@ -1063,7 +1123,8 @@ func streamIndex(o opts) {
 		}
 		mw.Close()
 	}
-	m.Traces, m.Ops = o.n, o.n*62
+	w.Close()
+	m.Traces, m.Ops = o.n, o.n*62+w.ops
 	m.sample("index r1, index r2, Set r2, delete, notify, Set r1 -> Invalidate returns 0 (known finding F5)")
 	m.write(o.out)
 }
